@@ -462,6 +462,15 @@ func (g *ProgGen) elim(ctx []Var, A *ast.Ty) *ast.Term {
 	if x.T.M.C() && g.budget > 0 && g.Chance(18, "split") {
 		g.feat("split")
 		a, b := g.fresh("c"), g.fresh("c")
+		if g.Chance(20, "rebind") {
+			// <x, c> <- split x: the consumed name may be bound again at once
+			if g.Bool("rebindsecond") {
+				b = x.N
+			} else {
+				a = x.N
+			}
+			g.feat("rebinds-consumed-name")
+		}
 		return &ast.Term{Kind: ast.TSplit, X: ast.N(a), Y: ast.N(b), Z: g.nm(x.N, x.T), K: g.Term(append(rest, Var{a, x.T}, Var{b, x.T}), A)}
 	}
 	switch xt.K {
@@ -471,8 +480,13 @@ func (g *ProgGen) elim(ctx []Var, A *ast.Ty) *ast.Term {
 	case ast.KTensor:
 		g.feat("tensorL")
 		p, q := g.fresh("p"), g.fresh("q")
-		if g.Chance(15, "rebind") {
-			p = x.N // a consumed name may be bound again
+		if g.Chance(20, "rebind") {
+			// a consumed name may be bound again, as the payload or as the continuation
+			if g.Bool("rebindsecond") {
+				q = x.N
+			} else {
+				p = x.N
+			}
 			g.feat("rebinds-consumed-name")
 		}
 		return &ast.Term{Kind: ast.TRecv, X: ast.N(p), Y: ast.N(q), Z: g.nm(x.N, x.T), K: g.Term(append(rest, Var{p, xt.L}, Var{q, xt.R}), A)}
@@ -481,6 +495,10 @@ func (g *ProgGen) elim(ctx []Var, A *ast.Ty) *ast.Term {
 		t := &ast.Term{Kind: ast.TCase, X: g.nm(x.N, x.T)}
 		for _, br := range xt.Brs {
 			y := g.fresh("y")
+			if g.Chance(15, "rebind") {
+				y = x.N // case x (l<x> => …)
+				g.feat("rebinds-consumed-name")
+			}
 			t.Brs = append(t.Brs, ast.Branch{Label: br.L, Payload: ast.N(y), K: g.Term(append(append([]Var{}, rest...), Var{y, br.T}), A)})
 		}
 		g.shuffleBranches(t)
@@ -488,6 +506,10 @@ func (g *ProgGen) elim(ctx []Var, A *ast.Ty) *ast.Term {
 	case ast.KDown:
 		g.feat("downL")
 		y := g.fresh("y")
+		if g.Chance(15, "rebind") {
+			y = x.N // x <- shift x
+			g.feat("rebinds-consumed-name")
+		}
 		return &ast.Term{Kind: ast.TShift, X: ast.N(y), Z: g.nm(x.N, x.T), K: g.Term(append(rest, Var{y, xt.L}), A)}
 	case ast.KLolli:
 		g.feat("lolliL")
@@ -509,6 +531,10 @@ func (g *ProgGen) elim(ctx []Var, A *ast.Ty) *ast.Term {
 			pre = append(pre, c1)
 		}
 		n := g.fresh("r")
+		if g.Chance(15, "rebind") {
+			n = x.N // x : B <- new send x<b, self>
+			g.feat("axiom-cut-reuses-name")
+		}
 		cut := &ast.Term{Kind: ast.TNew, X: ast.N(n), Ann: g.ann(xt.R), Body: &ast.Term{Kind: ast.TSend, X: g.nm(x.N, x.T), Y: g.nm(b, xt.L), Z: ast.SelfNm}}
 		pre = append(pre, cut)
 		return seq(pre, g.Term(append(rest, Var{n, xt.R}), A))
@@ -516,6 +542,10 @@ func (g *ProgGen) elim(ctx []Var, A *ast.Ty) *ast.Term {
 		g.feat("withL")
 		br := xt.Brs[g.Pick(len(xt.Brs), "withbr")]
 		n := g.fresh("r")
+		if g.Chance(15, "rebind") {
+			n = x.N // x : A <- new x.l<self>
+			g.feat("axiom-cut-reuses-name")
+		}
 		cut := &ast.Term{Kind: ast.TNew, X: ast.N(n), Ann: g.ann(br.T), Body: &ast.Term{Kind: ast.TSel, X: g.nm(x.N, x.T), Label: br.L, Y: ast.SelfNm}}
 		cut.K = g.Term(append(rest, Var{n, br.T}), A)
 		return cut
@@ -523,6 +553,10 @@ func (g *ProgGen) elim(ctx []Var, A *ast.Ty) *ast.Term {
 		if ast.Geq(xt.L.M, am) {
 			g.feat("upL")
 			n := g.fresh("r")
+			if g.Chance(15, "rebind") {
+				n = x.N // x : A <- new cast x<self>
+				g.feat("axiom-cut-reuses-name")
+			}
 			cut := &ast.Term{Kind: ast.TNew, X: ast.N(n), Ann: g.ann(xt.L), Body: &ast.Term{Kind: ast.TCast, X: g.nm(x.N, x.T), Y: ast.SelfNm}}
 			cut.K = g.Term(append(rest, Var{n, xt.L}), A)
 			return cut
